@@ -164,6 +164,14 @@ func (t *Topic) DeleteExistingChannel(channelName string) error {
 	numChannels := len(t.channelMap)
 	t.Unlock()
 
+	// the persist triggered by the Notify at the start of channel.Delete() usually ran
+	// while the channel was still in the map, so persist again now that it is unlinked
+	if !channel.ephemeral {
+		t.nsqd.Lock()
+		t.nsqd.persistMetadataAfterDelete()
+		t.nsqd.Unlock()
+	}
+
 	// update messagePump state
 	select {
 	case t.channelUpdateChan <- 1:
